@@ -611,6 +611,13 @@ func (exec *Executor) executeDecimalMethod(
 	// Round to the scale.
 	ratio := math.Pow10(scale)
 	rounded := math.Round(num*ratio) / ratio
+	if math.IsInf(rounded, 0) || math.IsNaN(rounded) {
+		// The scale is beyond what a float64 can represent.
+		return 0, fmt.Errorf(
+			`%w: argument "%v" of jsonpath item method %v is invalid for type %v`,
+			ErrVerbose, value, op, "numeric",
+		)
+	}
 
 	// Count the digits before the decimal point.
 	numStr := strconv.FormatFloat(rounded, 'f', -1, 64)
